@@ -87,9 +87,13 @@ Sort == /\ Ev("Sort") /\ LET ev == Trace[l]  o == obj[ev.i] IN
 Copy == /\ Ev("Copy") /\ LET ev == Trace[l]  o == obj[ev.i] IN
            /\ ev.j = Len(obj) + 1 /\ ev.xs = o.xs /\ ev.ws = o.ws /\ ev.sorted = o.sorted /\ ev.disjoint = 1
            /\ obj' = Append(obj, o)
+\* the caller writes into Xs in place (same length; objects not flagged as sorted): the object is the new data from now on
+Poke == /\ Ev("Poke") /\ LET ev == Trace[l]  o == obj[ev.i] IN
+           /\ o.sorted = 0 /\ Len(ev.xs) = Len(o.xs) /\ ev.ws = o.ws
+           /\ obj' = [obj EXCEPT ![ev.i] = MkObj(ev.xs, o.ws, o.weighted, 0)]
 Query == /\ Ev("Query") /\ LET ev == Trace[l] IN ev.unchanged = 1 /\ ReplyOK(obj[ev.i], ev)
          /\ UNCHANGED obj
-Next == Reset \/ New \/ Sort \/ Copy \/ Query
+Next == Reset \/ New \/ Sort \/ Copy \/ Poke \/ Query
 Spec == Init /\ [][Next]_vars
 Accepted == TLCGet("stats").diameter - 1 = Len(Trace)
 =============================================================================
